@@ -185,28 +185,43 @@ def concrete(e, k, salt):
     return ks[(e + salt) % len(ks)]
 
 
-class Hang(Exception):
+class Hang(BaseException):
     pass
 
 
+_HUNG = {"now": False, "count": 0}
+
+
 def _alarm(*_):
+    _HUNG["now"] = True
     raise Hang()
 
 
 def replay_path(args):
-    """Guarded replay: an operation that does not return within 5 s is reported as a hang."""
+    """Guarded replay: an operation that does not return is reported as a hang.  The guard is
+    wall-clock (20 s, far above the microseconds a replay takes; 2 s once a worker has seen
+    three hangs); whatever the interrupted replay produced is discarded."""
     import signal  # noqa: PLC0415
 
     signal.signal(signal.SIGALRM, _alarm)
-    signal.alarm(2)
+    _HUNG["now"] = False
+    signal.alarm(20 if _HUNG["count"] < 3 else 2)
+    out = None
     try:
-        return _replay_path(args)
+        out = _replay_path(args)
     except Hang:
-        path, salt = args
-        return [("C14/ExitStack/unwind-never-returns", {"engine": "exitstack", "spec": "ExitStack", "path": [e["a"] for e in path], "salt": salt,
-                                                        "expected": "the unwind completes", "observed": "no return within 5 s (infinite loop)"})]
+        pass
+    except BaseException:  # noqa: BLE001
+        if not _HUNG["now"]:
+            raise
     finally:
         signal.alarm(0)
+    if _HUNG["now"]:
+        _HUNG["count"] += 1
+        path, salt = args
+        return [("C14/ExitStack/unwind-never-returns", {"engine": "exitstack", "spec": "ExitStack", "path": [e["a"] for e in path], "salt": salt,
+                                                        "expected": "the unwind completes", "observed": "no return within the guard time (infinite loop)"})]
+    return out
 
 
 def _replay_path(args):
